@@ -62,6 +62,7 @@ type LockEngine struct {
 	Exits     []exitRec
 	GoLits    []goRec
 	SibWrites []sibWrite
+	SibReads  []sibRead
 	Splits    []splitRec
 	Problems  []string
 	reporting bool
@@ -137,6 +138,7 @@ type goRec struct {
 type sibWrite struct {
 	Lit  *Fn
 	Pos  token.Pos
+	Obj  types.Object
 	Var  string
 	Held []string // own locks held
 	OK   bool
@@ -525,6 +527,10 @@ func (le *LockEngine) node(fn *Fn, n ast.Node, f Facts, visit bool) {
 			}
 		case *ast.CallExpr:
 			le.call(fn, x, f, deferCall[x], goCall[x], handled, rec)
+		case *ast.Ident:
+			if rec {
+				le.sibIdent(fn, x, f)
+			}
 		case *ast.SelectorExpr:
 			if handled[x] {
 				return true
@@ -824,6 +830,11 @@ func (le *LockEngine) call(fn *Fn, c *ast.CallExpr, f Facts, isDefer, isGo bool,
 				le.addAcq(fn, lockAcq{Class: a.Class, Rel: "", Mode: a.Mode, Via: t.Name})
 			}
 			le.acquire(fn, c.Pos(), a.Class, base, a.Mode, "call "+t.Name, f, rec)
+			// the callee opened and closed its own critical section on this object: a later guarded
+			// write in this function happens in a second section
+			if !strings.HasPrefix(base, "?") && !le.hasLock(f, base, a.Class, "R") {
+				f["S|"+base+"|"+a.Class] = true
+			}
 		}
 	}
 }
@@ -971,30 +982,7 @@ func (le *LockEngine) joined(fn *Fn, goCall *ast.CallExpr, lit *ast.FuncLit) boo
 // sibling: inside a go-spawned literal started in a loop, a write to a variable captured from outside the
 // loop must be under a lock acquired inside the literal.
 func (le *LockEngine) sibling(fn *Fn, pos token.Pos, lhs []ast.Expr, f Facts) {
-	// find enclosing go literal, or a go literal that calls this (local closure) function
-	var goLit *Fn
-	for x := fn; x != nil; x = x.Parent {
-		if r := le.litRole[x]; r == "go" || r == "goJoined" {
-			goLit = x
-			break
-		}
-	}
-	if goLit == nil && fn.Lit != nil {
-		for _, g := range AllFnsUnder(fn.Root()) {
-			for _, cs := range le.cg.Sites(g) {
-				for _, t := range cs.Targets {
-					if t != fn {
-						continue
-					}
-					for x := g; x != nil; x = x.Parent {
-						if r := le.litRole[x]; r == "go" || r == "goJoined" {
-							goLit = x
-						}
-					}
-				}
-			}
-		}
-	}
+	goLit := le.goCtx(fn)
 	if goLit == nil {
 		return
 	}
@@ -1039,6 +1027,83 @@ func (le *LockEngine) sibling(fn *Fn, pos token.Pos, lhs []ast.Expr, f Facts) {
 			}
 		}
 		sort.Strings(own)
-		le.SibWrites = append(le.SibWrites, sibWrite{Lit: goLit, Pos: pos, Var: v.Name(), Held: own, OK: len(own) > 0})
+		le.SibWrites = append(le.SibWrites, sibWrite{Lit: goLit, Pos: pos, Obj: v, Var: v.Name(), Held: own, OK: len(own) > 0})
 	}
+}
+
+// goCtx: the go-spawned literal fn runs in — fn itself, an enclosing literal, or a go literal that calls
+// this local closure.
+func (le *LockEngine) goCtx(fn *Fn) *Fn {
+	for x := fn; x != nil; x = x.Parent {
+		if r := le.litRole[x]; r == "go" || r == "goJoined" {
+			return x
+		}
+	}
+	if fn.Lit != nil {
+		for _, g := range AllFnsUnder(fn.Root()) {
+			for _, cs := range le.cg.Sites(g) {
+				for _, t := range cs.Targets {
+					if t != fn {
+						continue
+					}
+					for x := g; x != nil; x = x.Parent {
+						if r := le.litRole[x]; r == "go" || r == "goJoined" {
+							return x
+						}
+					}
+				}
+			}
+		}
+	}
+	return nil
+}
+
+type sibRead struct {
+	Lit  *Fn
+	Pos  token.Pos
+	Obj  types.Object
+	Held []string
+	OK   bool
+}
+
+// sibIdent records reads, inside sibling goroutines, of variables captured from outside the spawning loop.
+func (le *LockEngine) sibIdent(fn *Fn, id *ast.Ident, f Facts) {
+	goLit := le.goCtx(fn)
+	if goLit == nil {
+		return
+	}
+	loop := le.loopAncestor(goLit.Parent, goLit.Lit)
+	if loop == nil {
+		return
+	}
+	v, ok := le.p.ObjOf(fn, id).(*types.Var)
+	if !ok || v.IsField() {
+		return
+	}
+	if _, isDef := fn.Pkg.TypesInfo.Defs[id]; isDef {
+		return
+	}
+	if v.Pos() >= goLit.Lit.Pos() && v.Pos() <= goLit.Lit.End() {
+		return
+	}
+	if v.Pos() >= loop.Pos() && v.Pos() <= loop.End() {
+		return
+	}
+	// assignment targets are writes, handled by sibling()
+	if as, ok := le.p.parent[id].(*ast.AssignStmt); ok {
+		for _, l := range as.Lhs {
+			if l == ast.Expr(id) {
+				return
+			}
+		}
+	}
+	inherited := le.litEntry[goLit]
+	var own []string
+	for k := range f {
+		if strings.HasPrefix(k, "H|") && !inherited[k] {
+			own = append(own, k[2:])
+		}
+	}
+	sort.Strings(own)
+	le.SibReads = append(le.SibReads, sibRead{Lit: goLit, Pos: id.Pos(), Obj: v, Held: own, OK: len(own) > 0})
 }
